@@ -229,6 +229,15 @@ func (c *rapidContext) watchEvents(events <-chan supvmodel.Event) {
 		}
 		termination := event.Event.ProcessTerminated()
 
+		// Processes are named <role>-<generation>. The exit of a process of an earlier generation can be notified
+		// late (after the reset that killed it gave up waiting); it is recorded, but it is neither a fault of the
+		// current generation nor a reason to cancel its flows.
+		if !strings.HasSuffix(*termination.Name, fmt.Sprintf("-%d", c.runtimeDomainGeneration)) {
+			log.Warnf("Process %s of an earlier generation exited: %+v", *termination.Name, termination)
+			c.shutdownContext.handleProcessExit(*termination)
+			continue
+		}
+
 		// If we are not shutting down then we care if an unexpected exit happens.
 		if !c.shutdownContext.isShuttingDown() {
 			runtimeProcessName := fmt.Sprintf("%s-%d", runtimeProcessName, c.runtimeDomainGeneration)
